@@ -5,6 +5,8 @@ package c15
 import (
 	"encoding/json"
 	"fmt"
+	"os"
+	"sort"
 	"testing"
 
 	"github.com/Eyevinn/mp4ff/hevc"
@@ -40,9 +42,66 @@ func hevcParseSPSs(trees []nalgen.HEVCSPSTree, relax bool) (map[uint32]*hevc.SPS
 	return m, nil
 }
 
+// kfCmOctantsLost parks a finding on the unchanged library (see /verif/out/hevcext-findings.md): hevc.parseColourMappingOctants
+// assigns the result of every recursive call to the same variable, so for split_octant_flag = 1 the map it returns
+// holds the leaves of the LAST sub-octant only; the res_coeff values coded for the other seven sub-octants are
+// parsed (the bit position stays right) and dropped. While the switch is on, a colour mapping table with a coded
+// split is compared like this: every entry the parser returns must be an entry that was coded under that key with
+// those values (so a wrong key or value is still found), but entries that are missing are not demanded. Each such
+// case is counted as an exclusion. C15_HEVC_CM_OCTANTS_STRICT=1 switches it off (the finding then shows up within a
+// few hundred PPS cases).
+var kfCmOctantsLost = os.Getenv("C15_HEVC_CM_OCTANTS_STRICT") == ""
+
+const kfCmOctantsLostKey = "C15|hevc.PPS.MultilayerExtension.ColourMappingTable.Octants|entries of all but the last sub-octant missing"
+
+// hevcExpectedPPS is the struct the parser has to return for the tree: the coded values; the flattened colour
+// mapping octants are derived here from the coded octant tree (not taken from the generator).
+func hevcExpectedPPS(tr *nalgen.HEVCPPSTree) hevc.PPS {
+	want := tr.PPS
+	if m := want.MultilayerExtension; m != nil && m.ColourMappingTable != nil && tr.CmOctants != nil {
+		mc, cm := *m, *m.ColourMappingTable
+		cm.Octants = nalgen.HEVCCmOctantMap(&cm, tr.CmOctants)
+		mc.ColourMappingTable = &cm
+		want.MultilayerExtension = &mc
+	}
+	return want
+}
+
 func hevcComparePPS(tr *nalgen.HEVCPPSTree, got *hevc.PPS, ctx string) *harness.Fail {
-	if p, w, g := hevcDiff(&tr.PPS, got, nil); p != "" {
+	want := hevcExpectedPPS(tr)
+	var o *hevcDiffOpts
+	const octPath = "MultilayerExtension.ColourMappingTable.Octants"
+	parked := false
+	if m := want.MultilayerExtension; kfCmOctantsLost && m != nil && m.ColourMappingTable != nil &&
+		nalgen.HEVCCmOctantHasSplit(m.ColourMappingTable, tr.CmOctants) {
+		parked = true
+		o = &hevcDiffOpts{Skip: map[string]bool{octPath: true}}
+	}
+	if p, w, g := hevcDiff(&want, got, o); p != "" {
 		return hevcFieldFail("PPS", p, w, g, ctx)
+	}
+	if parked {
+		harness.Rec.Exclude(kfCmOctantsLostKey)
+		wantOct := want.MultilayerExtension.ColourMappingTable.Octants
+		gotOct := got.MultilayerExtension.ColourMappingTable.Octants // both pointers non-nil: the diff above passed
+		keys := make([]string, 0, len(gotOct))
+		for k := range gotOct {
+			keys = append(keys, k)
+		}
+		sort.Strings(keys)
+		if len(keys) == 0 {
+			return hevcFieldFail("PPS", octPath+".len", fmt.Sprint(len(wantOct)), "0", ctx)
+		}
+		for _, k := range keys {
+			q := fmt.Sprintf("%s{%s}", octPath, k)
+			wv, ok := wantOct[k]
+			if !ok {
+				return hevcFieldFail("PPS", q, "missing", "present", ctx)
+			}
+			if p, w, g := hevcDiffValueTop(q, wv, gotOct[k]); p != "" {
+				return hevcFieldFail("PPS", p, w, g, ctx)
+			}
+		}
 	}
 	return nil
 }
